@@ -130,6 +130,8 @@ def unit_forward_1d(mode, kind):
             else:
                 want = ext(mode, a, n, c)(k - off)
             ctx.prove(st, 'out(k) == EXT_mode(arr)(k - offset) at every index, all extents / offsets', core.sc_eq(out.at((k,)), want), info, replay=rp)
+            g = S(z3.Int('g_any'))
+            ctx.prove(st, 'input array unchanged', core.sc_eq(arr.at((g,)), carr.fresh_array('a', (n,)).at((g,))), info, replay=rp)
     return Unit('resize/forward/1d/%s/%s' % (mode, kind), run,
                 funcs=[NU + 'resize_array', NU + '_apply_padding', NU + '_assign_intersection', NU + '_intersection_slice_tuples',
                        NU + '_padding_slices_outer', NU + '_padding_slices_inner'], config={'mode': mode, 'kind': kind})
@@ -234,6 +236,60 @@ def unit_transpose_1d(mode, kind):
             mf, ma = r
             ctx.prove(st, 'adjoint direction is the transpose: M_adj(j, k) == M_fwd(k, j) for all j, k, extents, offsets', core.sc_eq(ma, mf), info, replay=rp)
     return Unit('resize/transpose/1d/%s/%s' % (mode, kind), run, funcs=[NU + 'resize_array', NU + '_apply_padding'], config={'mode': mode, 'kind': kind})
+
+
+def unit_transpose_2d(mode, kinds):
+    """2-d transposes incl. mixed grow / shrink; also: the adjoint direction must not modify its input"""
+    def run(ctx):
+        I = ctx.I
+
+        def path(st):
+            setup(st)
+            ns = [S(z3.Int('n0')), S(z3.Int('n1'))]
+            ms = [S(z3.Int('m0')), S(z3.Int('m1'))]
+            offs = [S(z3.Int('off0')), S(z3.Int('off1'))]
+            for n, m, off, kind in zip(ns, ms, offs, kinds):
+                st.assume(n >= 1)
+                st.assume(off >= 0)
+                if kind == 'grow':
+                    st.assume(m > n)
+                    st.assume(off <= m - n)
+                    admissible(st, mode, n, off, m - n - off)
+                else:
+                    st.assume(m < n)
+                    st.assume(m >= 1)
+                    st.assume(off <= n - m)
+            js = [S(z3.Int('j0')), S(z3.Int('j1'))]
+            ks = [S(z3.Int('k0')), S(z3.Int('k1'))]
+            for j, n in zip(js, ns):
+                st.assume(s_and(j >= 0, j < n))
+            for k, m in zip(ks, ms):
+                st.assume(s_and(k >= 0, k < m))
+            try:
+                dj = carr.delta_array(tuple(ns), tuple(js), npm.DT('float64'))
+                of = carr.fresh_array('sf', tuple(ms), npm.DT('float64'))
+                call_resize(I, st, dj, tuple(ms), offs, mode, 0, 'forward', out=of)
+                dk = carr.delta_array(tuple(ms), tuple(ks), npm.DT('float64'))
+                oa = carr.fresh_array('sa', tuple(ns), npm.DT('float64'))
+                call_resize(I, st, dk, tuple(ns), offs, mode, 0, 'adjoint', out=oa)
+            except ip.PyRaise as e:
+                return ('raise', e.exc)
+            g = [S(z3.Int('g0')), S(z3.Int('g1'))]
+            for gi, m in zip(g, ms):
+                st.assume(s_and(gi >= 0, gi < m))
+            delta_k = s_if(s_and(core.sc_eq(g[0], ks[0]), core.sc_eq(g[1], ks[1])), 1.0, 0.0)
+            return ('ok', (of.at(tuple(ks)), oa.at(tuple(js)), dk.at(tuple(g)), delta_k))
+        info = {'mode': mode, 'kinds': list(kinds)}
+        rp = {'kind': 'resize-transpose-2d', 'mode': mode, 'kinds': list(kinds)}
+        for st, (status, r) in ctx.explore(path):
+            if status == 'raise':
+                ctx.fail(st, 'no_raise', 'raises %s%r' % (lib.exc_name(r), r.fields.get('args')), info, replay=rp)
+                continue
+            mf, ma, after, before = r
+            ctx.prove(st, '2-d: adjoint direction is the transpose of the forward direction', core.sc_eq(ma, mf), info, replay=rp)
+            ctx.prove(st, 'adjoint direction leaves its input array unchanged', core.sc_eq(after, before), info, replay=rp)
+    return Unit('resize/transpose/2d/%s/%s' % (mode, '-'.join(kinds)), run, funcs=[NU + 'resize_array', NU + '_apply_padding'],
+                config={'mode': mode, 'kinds': list(kinds)}, bounded_in='ndim = 2')
 
 
 def unit_errors():
@@ -365,6 +421,12 @@ def units(tier, seed):
             us.append(unit_forward_2d(mode, kinds))
         for kind in ('grow', 'shrink'):
             us.append(unit_transpose_1d(mode, kind))
+        for kinds in (('grow', 'shrink'), ('shrink', 'grow'), ('grow', 'grow')):
+            if mode == 'order1' and kinds == ('grow', 'grow') and tier != 'thorough':
+                continue        # > 100 s (moment sums in both axes): thorough tier only
+            u = unit_transpose_2d(mode, kinds)
+            u.timeout = 900 if tier == 'thorough' else 240
+            us.append(u)
         us.append(unit_crop(mode))
     us.append(unit_errors())
     us.append(unit_util_bounded())
